@@ -25,26 +25,38 @@ Matches ==
 
 ResIs == ev.res # "" => last'.res = ev.res
 
-TraceSchedule   == Consume("Schedule") /\ Schedule(ev.a) /\ ResIs /\ Matches
-TraceCbSchedule == Consume("CbSchedule") /\ CbSchedule(ev.a) /\ ResIs /\ Matches
-TraceTimerFire  == Consume("TimerFire") /\ TimerFire(ev.a, ev.i) /\ Matches
-TraceRelease    == Consume("Release") /\ Release(ev.a, ev.i) /\ ResIs /\ Matches
-TraceAttemptEnd == Consume("AttemptEnd") /\ AttemptEnd(ev.a, ev.j, ev.ok) /\ ResIs /\ Matches
-TracePause      == Consume("Pause") /\ Pause /\ Matches
-TraceResume     == Consume("Resume") /\ Resume /\ Matches
-TraceResetAll   == Consume("ResetAll") /\ ResetAll /\ Matches
-TraceCancel     == Consume("Cancel") /\ Cancel(ev.a) /\ Matches
-TraceStop       == Consume("Stop") /\ Stop /\ Matches
+Same == UNCHANGED <<asleep, aggr>>
+TraceSchedule   == Consume("Schedule") /\ Schedule(ev.a) /\ ResIs /\ Matches /\ Same
+TraceCbSchedule == Consume("CbSchedule") /\ CbSchedule(ev.a) /\ ResIs /\ Matches /\ Same
+TraceTimerFire  == Consume("TimerFire") /\ TimerFire(ev.a, ev.i) /\ Matches /\ Same
+TraceRelease    == Consume("Release") /\ Release(ev.a, ev.i) /\ ResIs /\ Matches /\ Same
+TraceAttemptEnd == Consume("AttemptEnd") /\ AttemptEnd(ev.a, ev.j, ev.ok) /\ ResIs /\ Matches /\ Same
+TracePause      == Consume("Pause") /\ Pause /\ Matches /\ Same
+TraceResume     == Consume("Resume") /\ Resume /\ Matches /\ Same
+TraceResetAll   == Consume("ResetAll") /\ ResetAll /\ Matches /\ Same
+TraceCancel     == Consume("Cancel") /\ Cancel(ev.a) /\ Matches /\ Same
+TraceStop       == Consume("Stop") /\ Stop /\ Matches /\ Same
+
+\* agent level (cmesh): observed are the agent's sleep state, whether its reconnector is paused, and every dial
+\* of its transport; `failed` lists the peers whose dial failed
+AgentMatches == ev.cmp => (paused' = ev.st.paused /\ asleep' = ev.st.asleep)
+FailedSet == {ev.failed[k] : k \in 1..Len(ev.failed)}
+TraceAgentSleep == Consume("AgentSleep") /\ AgentSleep /\ AgentMatches
+TraceAgentWake  == Consume("AgentWake") /\ AgentWake(FailedSet) /\ AgentMatches
+\* a tick that dialed; ticks that end an activity silently are not observable and need no event (MaxTicks is large)
+TraceAggrTick   == Consume("AggressiveTick") /\ (\E i \in 1..Len(aggr) : AggressiveTick(i, FailedSet)) /\ ResIs /\ AgentMatches
 TraceReset ==
   /\ Consume("Reset")
   /\ paused' = FALSE /\ closed' = FALSE
   /\ ex' = [a \in Addr |-> FALSE] /\ att' = [a \in Addr |-> 0] /\ idx' = [a \in Addr |-> 0]
   /\ nd' = [a \in Addr |-> 0] /\ cons' = [a \in Addr |-> 0]
   /\ pend' = [a \in Addr |-> <<>>] /\ gate' = [a \in Addr |-> <<>>] /\ infl' = [a \in Addr |-> <<>>]
+  /\ asleep' = FALSE /\ aggr' = <<>>
   /\ last' = [act |-> "Init"]
 
 TraceNext == \/ TraceSchedule \/ TraceCbSchedule \/ TraceTimerFire \/ TraceRelease \/ TraceAttemptEnd
              \/ TracePause \/ TraceResume \/ TraceResetAll \/ TraceCancel \/ TraceStop \/ TraceReset
+             \/ TraceAgentSleep \/ TraceAgentWake \/ TraceAggrTick
 
 HighWater == TLCSet(1, IF l > TLCGet(1) THEN l ELSE TLCGet(1))
 TraceAccepted == /\ PrintT("HW " \o ToString(TLCGet(1)))
